@@ -156,7 +156,7 @@ def main(argv=None):
         for params in jobs:
             opts = dict(h.opts.get(tier, h.opts.get("quick", {})) if "quick" in h.opts or "thorough" in h.opts else h.opts)
             opts["known"] = [k for k in known if k.get("status") == "known" and k.get("harness") in (None, hname)]
-            opts.setdefault("query_timeout_ms", 10000 if tier == "quick" else 120000)
+            opts.setdefault("query_timeout_ms", 30000 if tier == "quick" else 120000)
             opts["seed"] = seed
             opts.setdefault("lia", "fallback")
             if os.environ.get("SX_LIA"):  # debugging: 0 | first | fallback
